@@ -27,10 +27,11 @@ def resolverOutputType (s : Schema) (td : TypeDef) : Ty :=
   | .union => tsUnion (td.members.map fun m => .ref m.1)
   | _ => base
 
-/-- `arguments_definition_to_ts` (after `into_readonly`) -/
+/-- `arguments_definition_to_ts`: `into_readonly` of an object type marks its FIELDS readonly and does not
+    descend into the field types, so list arguments stay mutable arrays -/
 def argsType (args : List InputValueDef) : Ty :=
   .obj (args.map fun a =>
-    (a.name, true, false, tsOf (fun n => .qref [schemaNs, Target.resolverInput.name, n]) true a.ty))
+    (a.name, true, false, tsOf (fun n => .qref [schemaNs, Target.resolverInput.name, n]) false a.ty))
 
 /-- the `__Resolver<Parent, Args, Context, Result>` of one field -/
 def fieldResolver (parent : Name) (f : FieldDef) : Ty :=
